@@ -547,7 +547,7 @@ def check_quat_rotate_towards(ctx, cfg, F, done):
             else:
                 k = tm.f_of(ks[0])
                 angle_small = (G.args[1] is ks[0])          # reads "angle < / <= k"
-                if (angle_small != near_when) or not (0.0 < k <= 1e-3):
+                if (angle_small != near_when) or not (0.0 < k <= 2e-4):
                     bad = 'rhs is not returned exactly when the remaining angle is below a tiny threshold (threshold %r)' % k
         if not bad:
             ren = _rename(rs, rt, [(0, 0), (1, 1)])
@@ -847,7 +847,10 @@ def check_slerp(ctx, cfg, F, done):
                         reads_neg = (ky is not None) if sg == 1 else (kx is not None)      # the condition reads "a.b < 0"
                         neg = v_ if reads_neg else not v_
                 elif 0.25 < abs(k) < 1.0 + 1e-9:
-                    if 1.0 - abs(k) > 1e-6:
+                    # quaternions: the threshold is 1 - eps of the scalar type itself (a binary32 epsilon in the f64 file switches to the
+                    # linear fallback for arcs of up to 5e-4 rad); the vector form uses one absolute threshold for both widths
+                    lim_ = 1e-6 if not is_quat else 64 * (2.0 ** -23 if tm.csize(x_ if kx is not None else y_) == 4 else 2.0 ** -52)
+                    if 1.0 - abs(k) > lim_:
                         bad = 'the near-parallel fallback starts at |cos angle| > %r: arcs of up to %.3g rad are interpolated linearly instead of spherically' % (k, math.acos(min(1.0, abs(k))))
                     reads_gt = kx is not None           # flt(k, X): X > k
                     near = v_ if reads_gt else not v_
